@@ -139,6 +139,8 @@ thread_local! {
     static LAST_PANIC: std::cell::RefCell<Option<(String, String)>> = const { std::cell::RefCell::new(None) };
 }
 
+static LAST_PANIC_ANY: std::sync::Mutex<Option<(String, String)>> = std::sync::Mutex::new(None);
+
 pub fn install_panic_hook() {
     std::panic::set_hook(Box::new(|info| {
         let loc = info.location().map(|l| format!("{}:{}", l.file(), l.line())).unwrap_or_else(|| "?".into());
@@ -149,6 +151,10 @@ pub fn install_panic_hook() {
         } else {
             "<non-string panic>".to_string()
         };
+        // helper threads of a run (hash epochs) panic on their own thread: keep a process-wide copy as well
+        if let Ok(mut g) = LAST_PANIC_ANY.lock() {
+            *g = Some((loc.clone(), msg.clone()));
+        }
         LAST_PANIC.with(|p| *p.borrow_mut() = Some((loc, msg)));
     }));
 }
@@ -191,13 +197,16 @@ pub struct Outcome {
 fn execute_here<S: Scenario>(case: &S::Case) -> Outcome {
     let mut obs = Obs::default();
     LAST_PANIC.with(|p| *p.borrow_mut() = None);
+    if let Ok(mut g) = LAST_PANIC_ANY.lock() {
+        *g = None;
+    }
     probe::at("-");
     let r = std::panic::catch_unwind(std::panic::AssertUnwindSafe(|| S::execute(case, &mut obs)));
     let violation = match r {
         Ok(Ok(())) => None,
         Ok(Err(v)) => Some(v),
         Err(_) => {
-            let (loc, msg) = LAST_PANIC.with(|p| p.borrow_mut().take()).unwrap_or(("?".into(), "?".into()));
+            let (loc, msg) = LAST_PANIC.with(|p| p.borrow_mut().take()).or_else(|| LAST_PANIC_ANY.lock().ok().and_then(|mut g| g.take())).unwrap_or(("?".into(), "?".into()));
             let label = probe::current_label();
             let pre = if obs.prestate.is_empty() { "-".to_string() } else { obs.prestate.clone() };
             Some(Violation {
